@@ -56,6 +56,10 @@ var poolTxs = func() map[string]*poolTx {
 	mk("B0", 1, 0, 20, "1")
 	mk("B1", 1, 1, 10, "1")
 	mk("B0x", 1, 0, 55, "2")
+	// a longer run of one account for the timed-mode exploration
+	for i := 4; i <= 8; i++ {
+		mk(fmt.Sprintf("A%d", i), 0, uint64(i), int64(100+i), "1")
+	}
 	return m
 }()
 
@@ -94,6 +98,7 @@ type poolInst struct {
 type poolCfg struct {
 	batch uint64
 	pool  uint64
+	timed bool // blocks are cut by a timer (GenerateBlock), never by size
 }
 
 func newPoolInst(cfg poolCfg) *poolInst {
@@ -105,7 +110,7 @@ func newPoolInst(cfg poolCfg) *poolInst {
 }
 
 func (in *poolInst) open(height uint64) {
-	in.mp = mempool.NewMemPool(&mempool.Config{ID: 1, BatchSize: in.cfg.batch, PoolSize: in.cfg.pool, TxSliceSize: 1,
+	in.mp = mempool.NewMemPool(&mempool.Config{ID: 1, BatchSize: in.cfg.batch, PoolSize: in.cfg.pool, TxSliceSize: 1, IsTimed: in.cfg.timed,
 		ChainHeight: height, Logger: fix.Logger(),
 		GetAccountNonce: func(a *types.Address) uint64 { return in.m.ledger[a.String()] }})
 	in.m.lastSeq = height
@@ -282,6 +287,17 @@ func (in *poolInst) apply(op string) (ok bool, viol [][2]string) {
 				return false, nil
 			}
 			names = names[:1]
+		case "parthi":
+			// the block that was committed carries the batch's last transaction but, for the
+			// lower nonces, transactions this pool does not hold (another leader's block): the
+			// notification names only the last hash
+			if len(names) < 2 {
+				return false, nil
+			}
+			names = names[len(names)-1:]
+			for _, n := range m.batches[i][:len(m.batches[i])-1] {
+				m.tainted[poolTxs[n].acct] = true
+			}
 		}
 		in.commit(names)
 		if mode == "part" {
@@ -509,7 +525,7 @@ func runPool(c *mc.Ctx, prop string, o poolOracle, cfg poolCfg, name string, alp
 			ok, viol := in.apply(op)
 			if o.batch {
 				for _, v := range viol {
-					c.Report(prop+"|"+v[0], v[1]+" after "+joinOps(path), map[string]interface{}{"engine": strings.ToLower(prop) + ".poolmc", "ops": path, "batch": cfg.batch, "pool": cfg.pool})
+					c.Report(prop+"|"+v[0], v[1]+" after "+joinOps(path), map[string]interface{}{"engine": strings.ToLower(prop) + ".poolmc", "ops": path, "batch": cfg.batch, "pool": cfg.pool, "timed": cfg.timed})
 				}
 			}
 			return ok, len(viol) > 0
@@ -517,7 +533,7 @@ func runPool(c *mc.Ctx, prop string, o poolOracle, cfg poolCfg, name string, alp
 		Key: func(x mc.Instance) string { return x.(*poolInst).key() },
 		Check: func(x mc.Instance, path []string) {
 			in := x.(*poolInst)
-			rep := map[string]interface{}{"engine": strings.ToLower(prop) + ".poolmc", "ops": path, "batch": cfg.batch, "pool": cfg.pool}
+			rep := map[string]interface{}{"engine": strings.ToLower(prop) + ".poolmc", "ops": path, "batch": cfg.batch, "pool": cfg.pool, "timed": cfg.timed}
 			c.Add("oracle_evaluations", 1)
 			if len(in.m.batches) > 0 {
 				c.Add("states_with_uncommitted_batches", 1)
@@ -541,7 +557,8 @@ func poolReplayer(prop string, o poolOracle) func(c *mc.Ctx, r map[string]interf
 	return func(c *mc.Ctx, r map[string]interface{}) {
 		bs, _ := r["batch"].(float64)
 		ps, _ := r["pool"].(float64)
-		in := newPoolInst(poolCfg{uint64(bs), uint64(ps)})
+		timed, _ := r["timed"].(bool)
+		in := newPoolInst(poolCfg{uint64(bs), uint64(ps), timed})
 		path := strList(r["ops"])
 		rep := map[string]interface{}{"engine": strings.ToLower(prop) + ".poolmc", "ops": path}
 		for i, op := range path {
@@ -574,6 +591,8 @@ var poolAlphabet = []string{
 
 var poolAlphabetMore = []string{"recv follower local A3", "recv follower local A2x", "recv follower local B0x", "setseq 7", "recv leader remote A1,A2", "commitforeign A1x", "evict 150"}
 
+var poolAlphabetTimed = []string{"recv leader local A0,A1,A2,A3,A4,A5,A6,A7,A8", "recv leader local B0,B1", "gen", "commit 0", "commit 0 parthi", "commit 0 part", "commitforeign B0x"}
+
 var c18Oracle = poolOracle{batch: true}
 var c19Oracle = poolOracle{state: true, drain: true}
 
@@ -584,10 +603,12 @@ func C18(c *mc.Ctx) {
 		depth = 6
 		alpha = append(append([]string{}, poolAlphabet...), poolAlphabetMore...)
 	}
-	for _, cfg := range []poolCfg{{2, 0}, {1, 0}, {3, 0}} {
+	for _, cfg := range []poolCfg{{2, 0, false}, {1, 0, false}, {3, 0, false}} {
 		runPool(c, "C18", c18Oracle, cfg, fmt.Sprintf("poolmc-batch%d", cfg.batch), alpha, depth)
 		depth = 4
 	}
+	// timed mode: blocks are cut by GenerateBlock only; longer histories over a small alphabet
+	runPool(c, "C18", c18Oracle, poolCfg{2, 0, true}, "poolmc-timed-batch2", poolAlphabetTimed, 9)
 	c.Set("rule", "BFS over mempool operation sequences (receive as leader/follower, local/remote, slices with out-of-order, duplicate-nonce and conflicting transactions; generate; commit of batch i in order / reversed / partial; commit of a block built elsewhere; clock ticks; age-based eviction; restart reloading ledger nonces; sequence reset) on the real pool with batch size 1, 2, 3; every returned batch is checked against the reference model (consecutive nonces from committed/last batched, not twice, the held object, not below the ledger nonce, size, sequence)")
 	c.Assume("two accounts, nonces 0..3, one conflicting transaction per (account, nonce); virtual clock through a source rewrite of time.Now() in the pool's files")
 	if c.Get("states_with_uncommitted_batches") == 0 {
@@ -602,8 +623,9 @@ func C19(c *mc.Ctx) {
 		depth = 6
 		alpha = append(append([]string{}, poolAlphabet...), poolAlphabetMore...)
 	}
-	runPool(c, "C19", c19Oracle, poolCfg{2, 0}, "poolmc-batch2", alpha, depth)
-	runPool(c, "C19", c19Oracle, poolCfg{1, 0}, "poolmc-batch1", alpha, depth-1)
+	runPool(c, "C19", c19Oracle, poolCfg{2, 0, false}, "poolmc-batch2", alpha, depth)
+	runPool(c, "C19", c19Oracle, poolCfg{1, 0, false}, "poolmc-batch1", alpha, depth-1)
+	runPool(c, "C19", c19Oracle, poolCfg{2, 0, true}, "poolmc-timed-batch2", poolAlphabetTimed, 8)
 	c.Set("rule", "same exploration as C18; in every distinct state: fate of every admitted transaction (committed / retrievable by hash as itself / superseded / evicted by the age rule), pending-work report, pending nonce per account; and from every state the drain continuation (commit outstanding batches, then generate+commit until empty) must include every ready transaction")
 	c.Assume("two accounts, nonces 0..3; virtual clock")
 	if c.Get("states_with_uncommitted_batches") == 0 {
